@@ -23,7 +23,8 @@ Inductive json :=
 (* Python exception classes / exits that can end `tt` before anything is written *)
 Inductive exn := EValue | EType | EAttribute | EZeroDivision | EOverflow | EJsonDecode | EOSError
                | EExitUnsupported      (* sys.exit("... is not supported") *)
-               | EExitUsage.           (* argparse: exit status 2 *)
+               | EExitUsage            (* argparse: exit status 2 *)
+               | EStage (n : Z).       (* whatever a reader, filter or writer raises while it runs (class n; not modelled further) *)
 Inductive res (A : Type) := Ok (a : A) | Raise (e : exn).
 Arguments Ok {A} a. Arguments Raise {A} e.
 Definition bind {A B} (r : res A) (f : A -> res B) : res B := match r with Ok a => f a | Raise e => Raise e end.
@@ -33,7 +34,7 @@ Definition is_ok {A} (r : res A) : bool := match r with Ok _ => true | Raise _ =
 (* ------------------------------------------------------------------ decoded configuration values *)
 Inductive scc_align := AlLeft | AlCenter | AlRight | AlAuto.
 Inductive tfmt := TfFrames | TfClockTime | TfClockTimeWithFrames.
-Inductive mrc := MrcMNR | MrcInt (z : Z) | MrcBool (b : bool).    (* isinstance(True, int): a bool stays a bool *)
+Inductive mrc := MrcMNR | MrcInt (z : Z).
 Definition rgba := (Z * Z * Z * Z)%type.
 Record stl_cfg := { st_fill_gap : bool; st_start_tc : option text; st_line_padding : bool;
                     st_font_stack : option text   (* the accepted string; its families are parse_font_families of it *);
@@ -57,6 +58,23 @@ Record plan_t := { p_reader : reader; p_lang : option text; p_filters : list fil
                    p_level : option Z; p_progress : option bool }.
 
 Inductive outcome := OError (e : exn) | OHelp | OPlan (p : plan_t).
+
+(* ------------------------------------------------------------------ the raw command line (tokens after the program name) *)
+(* argparse destinations of the `convert` sub-parser (tt.py @subcommand([...])), plus its implicit -h/--help *)
+Inductive dest := DHelp | DInput | DOutput | DItype | DOtype | DFilter | DConfig | DConfigFile.
+(* the Namespace argparse builds: `store` keeps the last value, `append` all of them in order *)
+Record namespace := { n_input : option text; n_output : option text; n_itype : option text; n_otype : option text;
+                      n_filters : list text; n_config : option text; n_config_file : option text }.
+(* what the process does, in order: effects that are visible outside tt.convert *)
+Inductive event := EvProgress (b : bool)              (* progress.display_progress_bar = b *)
+                 | EvLevel (z : Z)                     (* LOGGER.setLevel *)
+                 | EvRead (r : reader) (path : text)   (* the reader is called on the input file *)
+                 | EvLang (l : text)                   (* model.set_lang *)
+                 | EvFilter (f : filter_app)           (* doc_filter.process(model) *)
+                 | EvWrite (w : writer)                (* the writer's from_model is called *)
+                 | EvOutput (path : text).             (* the output file is opened for writing and written *)
+Inductive final (B : Type) := FHelp | FError (e : exn) | FDone (path : text) (b : B).
+Arguments FHelp {B}. Arguments FError {B} e. Arguments FDone {B} path b.
 
 Inductive key := KLogLevel | KProgressBar | KDocumentLang | KTimeFormat | KFps | KSccTextAlign
                | KFillLineGap | KStartTc | KLinePadding | KFontStack | KMaxRowCount | KTextFormatting
